@@ -96,3 +96,24 @@ def stack_depth() -> int:
     from jaxtyping import _storage
 
     return len(getattr(_storage._shape_storage, "memo_stack", []))
+
+
+def reset_state():
+    """Harness hygiene between cases: whatever an earlier case (or a defect it exposed) left behind must
+    not leak into the next case, otherwise failures would be attributed to the wrong input and would not
+    replay.  Touches jaxtyping's private storage on purpose; never used to decide a property."""
+    import jaxtyping
+    from jaxtyping import _storage
+
+    if hasattr(_storage._shape_storage, "memo_stack"):
+        del _storage._shape_storage.memo_stack[:]
+    for st_, val in ((_storage._treepath_storage, None), (_storage._treeflatten_storage, False)):
+        try:
+            st_.value = val
+        except Exception:
+            pass
+    try:
+        jaxtyping.config.update("jaxtyping_disable", False)
+        jaxtyping.config.update("jaxtyping_remove_typechecker_stack", False)
+    except Exception:
+        pass
